@@ -9,6 +9,7 @@ smodels -> aspif conversion equals an independent python reference.  See notes/C
 """
 import random, re
 from props import calls as C
+from props import reuse as RU
 
 PID = 'C04'
 HARNESS = 'h_c04'
@@ -25,6 +26,8 @@ RULE = ('cases = (reader/pipeline mode, option bits, arbitrary bytes); streams: 
         '(a third damaged in one place); first rules whose head fills the rule builder\'s memory block exactly, long heads (9..14, 20+) / bodies (5..12) in random programs; '
         'multi-step theory programs (1-4 steps) incl. steps that define terms/elements but no theory atom and later steps that re-define earlier ids and use them; '
         'each at the shipped buffer size and hooked sizes 16/67; '
+        ''
+        'every other case (hash of the case) is read by a reader OBJECT that before read or REFUSED one of the aspif / smodels / text primer texts of harness/reuse.h (accepted incremental ones; refused at every stage, the smodels ones with symbol tables that bind common names, _edge and _heuristic predicates; reader modes 0-2); '
         'non-trivial = the reader delivered at least one directive, reported an error after the header, or the pipeline wrote output; distinct = distinct (mode, opts, bytes)')
 TRUSTED_BASE = ['ASan/UBSan/LSan as the detector of memory errors, UB and leaks in the compiled readers and lpconvert (exploration-strength for the runtime part)',
                 'props/C04.py contract oracle, output sanity checks and the python smodels reference of props/C07.py used for the smodels->aspif output',
@@ -47,7 +50,9 @@ def split(c):
 def describe(c):
     mode, opts, data = split(c)
     names = ['aspif-reader', 'smodels-reader', 'text-reader', 'aspif->smodels', 'aspif->text', 'smodels->aspif', 'smodels->text', 'lpconvert-binary']
-    return '%s opts=%d buf=%s input=%r' % (names[mode] if mode < len(names) else mode, opts, variant_of(c), data[:400])
+    # harness/reuse.h (modes 0-2): every other case reads with a reader object that read / refused a primer text before
+    rd = ' reader=' + RU.reader(c, ('aspif', 'smodels', 'text')[mode], bool(opts & 1)) if 0 <= mode <= 2 else ''
+    return '%s opts=%d buf=%s%s input=%r' % (names[mode] if mode < len(names) else mode, opts, variant_of(c), rd, data[:400])
 
 
 def contract(calls_):
